@@ -941,3 +941,16 @@ def c01_storm(tier, rng, fam='C01'):
                         runner='history', n=m, par=64, storm=True, big=big, seed=rng.randrange(1 << 30),
                         steps=[dict(op='storm')]))
     return out
+
+
+def c02_storm(tier, rng, fam='C02'):
+    """the same waves judged for C02: a third of the calls of a wave are bidirectional echo streams"""
+    n, reps = (6400, 4) if tier == 'quick' else (64000, 8)
+    out = []
+    for s_ in range(reps):
+        big = (s_ % 2 == 1)
+        m = n // (8 if big else 1)
+        out.append(dict(fam=fam, tag='storm of %d calls (every third a bidi echo stream), 64 at a time, %s payloads, seed %d' % (m, 'large' if big else 'small', s_),
+                        runner='history', n=m, par=64, storm=True, big=big, seed=rng.randrange(1 << 30),
+                        steps=[dict(op='storm')]))
+    return out
